@@ -8,7 +8,7 @@ from common import Case
 
 PID = "C16"
 OPNAMES = {27: "update_decode"}
-ORACLES = {27: 127}
+ORACLES = {27: [127, 130]}
 RULE = ("callbacks returning nil; bodies: exhaustive over the alphabet {0,1,2,3,4,14,15,0x10,0x40,0x80,0x90,0xff} up to "
         "length 4 (quick) / 5 (thorough), exhaustive attribute blocks of up to 2 short attributes with type in {1,2,14,15} "
         "and all four extended-length/flag combinations, grammar-generated bodies (60% well-formed; faults: duplicates, "
@@ -16,7 +16,7 @@ RULE = ("callbacks returning nil; bodies: exhaustive over the alphabet {0,1,2,3,
         "byte mutations, bodies up to 4077 bytes, and selected lengths above 65535 (withdrawn length 65534/65535). "
         "distinct = distinct bodies.")
 ASSUMPTIONS = ["callbacks return nil (the property's quantifier); recorded arguments are copied at call time"]
-COQ_FILES = ["Model/Update.v", "Spec/UpdateSpec.v", "Proofs/UpdateProofs.v", "Props/C16.v"]
+COQ_FILES = ["Model/Update.v", "Spec/UpdateSpec.v", "Proofs/UpdateProofs.v", "Proofs/UpdateErrProofs.v", "Props/C16.v"]
 ALPHA = [0, 1, 2, 3, 4, 14, 15, 0x10, 0x40, 0x80, 0x90, 0xFF]
 
 
